@@ -308,6 +308,7 @@ def handleLex (req : Json) : Except String String := do
     match text.toNat? with
     | some n => pure ("{\"ok\":" ++ jstr (String.ofList (Lex.digits n)) ++ ",\"back\":" ++ jstr (toString (Lex.parseNat (Lex.digits n))) ++ "}")
     | none => err "not a number"
+  | "parseInt" => pure ("{\"value\":" ++ jstr (toString (Lex.parseIntText cs)) ++ "}")
   | w => err ("unknown lex request " ++ w)
 
 def toBoundJ : Json → Except String Window.Bound
